@@ -66,5 +66,11 @@ CHECKS = {
   "text": "The real _save_to_pickle/_save_to_json are symbolically executed against effect models of open/write/dump/close/os.replace and the crash invariant 'target absent or complete (old or new), never partial' is checked after every effect. The real repetition loop is executed with load_partial_results returning an arbitrary saved state: exactly rep_max-c0 new successful repetitions, each counted once, result = saved + new, and the state handed to save_partial_results is the current one. load_partial_results accepts equal parameters (ignoring rep_max), raises ValueError otherwise, returns None for a missing file and does not swallow other errors. Real processes killed inside every write call and restarted are the bounded cross-check.",
   "note": "File-system effect models (atomic rename, truncation on open, complete only after close) are assumed; fsync/page-cache durability is outside contracts; resume arithmetic bounded in rep_max like C05; the 500-repetition save period only in the bounded runs.",
  },
+ "C17": {
+  "category": "proof",
+  "technique": "contract-based deductive verification: dict-level round trips of the real _to_dict/_from_dict with arbitrary (symbolic) field values against the fields compared by the classes' own __eq__; encoder/decoder hook contracts; json/pickle as library contracts conformance-checked by bounded native round trips",
+  "text": "For Result (all four types, accumulate on/off), SimulationResults and SimulationParameters (parent and unpacked child) the real _to_dict and _from_dict are symbolically executed on objects whose statistics, lists, choice counts, current_rep, runned_reps and unpack index are symbolic; every field compared by __eq__ (and num_updates) is proved restored for all values. The JSON hooks keep numpy integer/float scalars exact, invert sets and array descriptors (data, dtype, shape, any memory order) and reject unsupported objects. Text-level JSON/pickle, file dispatch, idempotence and file-name injectivity are bounded native checks over a broad value generator.",
+  "note": "json/pickle structural contracts assumed (conformance-checked natively); np.float128 and tuples excluded; file-name injectivity bounded.",
+ },
 }
 NOT_APPLICABLE = {}
